@@ -39,18 +39,18 @@ def swap_palette_exact(F, S):
         if len(fn) != 1:
             raise AnalysisBroken("%s not unique" % q)
         fn = fn[0]
-        loops = [nd for nd in fn.nodes if nd["k"] == "CXXForRangeStmt"]
+        from .c10 import element_bodies
+        loops = element_bodies(F, fn)
         inst = q + "#each-colour"
         req = "every palette entry is exchanged in place through Color::SwapRedAndBlue (all four bytes kept)"
-        good = len(loops) == 1 and fn.n(loops[0]["loopvar"])["decls"][0].get("is_ref")
+        good = len(loops) == 1 and loops[0]["is_ref"]
         if good:
-            lv = fn.n(loops[0]["loopvar"])["decls"][0]
-            v = ("var", lv["n"], lv["d"])
-            calls = [fn.n(x) for x in fn.subtree(loops[0]["body"]) if fn.n(x)["k"] == "CXXMemberCallExpr"]
-            st = [fn.n(x) for x in fn.subtree(loops[0]["body"]) if is_store(fn.n(x)) or fn.n(x)["k"] == "CXXOperatorCallExpr" and fn.n(x).get("op") == "="]
-            good = len(calls) == 1 and calls[0].get("fq") == "OP2Utility::Color::SwapRedAndBlue" and fn.term(calls[0]["obj"]) == v and not st
+            h, v = loops[0]["host"], loops[0]["var"]
+            calls = [h.n(x) for x in h.subtree(loops[0]["body"]) if h.n(x)["k"] == "CXXMemberCallExpr"]
+            st = [h.n(x) for x in h.subtree(loops[0]["body"]) if is_store(h.n(x)) or h.n(x)["k"] == "CXXOperatorCallExpr" and h.n(x).get("op") == "="]
+            good = len(calls) == 1 and calls[0].get("fq") == "OP2Utility::Color::SwapRedAndBlue" and h.term(calls[0]["obj"]) == v and not st
         if good:
-            out.append(ok("R-SIB", inst, fn.loc(loops[0]["id"]), fn.qn, req, "for (auto& c : palette) c.SwapRedAndBlue()"))
+            out.append(ok("R-SIB", inst, fn.loc(loops[0]["node"]["id"]), fn.qn, req, "for each colour c of the palette, by reference: c.SwapRedAndBlue()"))
         else:
             out.append(bad("R-SIB", inst, fn.loc(fn.body), fn.qn, req, "the per-entry operation is not the in-place exchange (an entry rebuilt from three channels loses its fourth byte)"))
     return out
@@ -219,6 +219,15 @@ def header_fields_constrained(F, S):
                         refused.add(st[2])
                     elif st[0] == "mem" and st[1][0] == "mem" and st[1][1] == ("this",):
                         refused.add(st[1][2] + "." + st[2])
+    # refusals made by helpers the validator hands its fields to count as well: every check passed on a returning path
+    exv = Engine(F, S).analyze(va, frozenset()) or frozenset()
+    for fct in exv:
+        if fct[0] == "ev" and fct[1] == "passed":
+            for st in subterms(fct[2]):
+                if st[0] == "mem" and st[1] == ("this",):
+                    refused.add(st[2])
+                elif st[0] == "mem" and st[1][0] == "mem" and st[1][1] == ("this",):
+                    refused.add(st[1][2] + "." + st[2])
     for f, why in (("sectionHead.tag", "section tag"), ("sectionHead.length", "section length"), ("tagCount", "tag count"),
                    ("pixelWidth", "pixel width"), ("pixelHeight", "pixel height"), ("bitDepth", "bit depth")):
         inst = T + "ReadCustomTileset#constrained:" + f
